@@ -33,6 +33,8 @@ class CancelReal(nd.StreamReal):
             return self.cproj(self.proj())
         if act == "read":
             p = super().step("read", [["bytes", 5, 0]])
+        elif act == "deliver":
+            p = super().step("deliver", [[97, 98, 99, 100, 101]])
         elif act == "write":
             p = super().step("write", [[120, 121]])
         else:
